@@ -123,6 +123,14 @@ def _gen(rng, tier):
     T = 8
     thorough = tier == "thorough"
     windows = [(0, 0), (1, 1), (2, 2), (0, 2), (2, 0), (1, 3)]
+    # three and more chunks with a middle chunk SHORTER than the windows (inputs must be carried over more than one call), dense rows,
+    # also windows with a look-back much larger than the look-ahead
+    for T2, cuts in ((24, [0, 10, 12, 24]), (24, [0, 8, 9, 10, 24]), (30, [0, 10, 13, 30]), (24, [0, 10, 10, 12, 24])):
+        dense = [[t, t + 1] for t in range(T2)]
+        for (wl, wr) in ((2, 2), (3, 1), (5, 1), (1, 4)):
+            for multi in (False, True):
+                yield dict(rows=dense, cuts=cuts, window=[wl, wr], tuple_window=True, multi=multi, mode="per_row")
+        yield dict(rows=dense, cuts=cuts, window=[3, 3], tuple_window=False, multi=False, mode="per_row")
     for rows in _row_sets(T):
         inner = [t for t in range(1, T) if not any(x < t < y for x, y in rows)]
         cutsets = []
@@ -147,7 +155,8 @@ overlap_window = Contract(
     F, "OverlapWindowPlugin.iter / do_compute", params=dict(rows="V", cuts="V", window="V", tuple_window="bool", multi="bool", mode="V"),
     ensures=_ens, raises={},
     harness=Harness(native=_native, gen=_gen,
-                    scope="7 sets of disjoint sorted rows on the grid 0..8 (rows longer than the window, touching rows, gaps), law-abiding "
+                    scope="dense rows on 0..24 / 0..30 in 3-4 chunks with a middle chunk shorter than the windows x windows (2,2) (3,1) (5,1) (1,4) 3; "
+                          "7 sets of disjoint sorted rows on the grid 0..8 (rows longer than the window, touching rows, gaps), law-abiding "
                           "chunkings with up to 4 inner cuts and zero-duration chunks (quick: 4, thorough: 25 per row set), windows "
                           "(0,0) (1,1) (2,2) (0,2) (2,0) (1,3) given as a number or a pair, single- and two-output plugin, one output row per input row "
                           "(neighbour count within the window) or per group (rows closer than the look-ahead window)",
